@@ -457,6 +457,8 @@ func (r *rt) fireElection(stale bool) {
 	}
 	if stale && v > 0 {
 		v--
+	} else if stale && h > 1 { // a trigger of the height that was just closed (its timer fired before the term was disposed)
+		h, v = h-1, uint64(r.intn(4))
 	}
 	tr := &interfaces.ElectionTrigger{MoveToNextLeader: func() { cb(primitives.BlockHeight(h), primitives.View(v), nil) },
 		Hv: state.NewHeightView(primitives.BlockHeight(h), primitives.View(v))}
